@@ -18,6 +18,9 @@ EXPLANATION = (
     "select_reads returns readset.subset(those indices); R5 family budget -- with a non-heuristic algorithm every sample's reads pass select_reads with max(1, max_coverage // len(family)), and validate "
     "rejects --internal-downsampling above 23."
 )
+EXPLANATION += (
+    " " + 'R4 also: in readselection the selection set starts empty and only ever receives results of readselection_helper (which registers every selected read with the coverage monitor).'
+)
 NOT_DECIDED = "The scoring heuristic and which maximal selection is chosen; that coverage of a span only grows is assumed from CovMonitor having no decrement (checked)."
 ASSUMPTIONS = ["vcf_indices maps every covered position to its rank among the read set's positions", "a read's variants are sorted, so first/last covered variant are index 0 / count-1"]
 
@@ -198,6 +201,28 @@ def r4(ctx):
     rets = [n for n in walk_function(rs.node) if isinstance(n, ast.Return)]
     ok = len(rets) == 1 and u(rets[0].value) == "selected_reads"
     ctx.ob(rs.qual, "returns-selected", ok, rs.loc(), "readselection returns selected_reads" if ok else "readselection returns %s" % (u(rets[0].value) if rets else "?"))
+    # in the caller, the selection only ever receives what the helper returned (the helper counts every read it selects)
+    bad = []
+    n_in = 0
+    for st in util.store_sites(rs.node):
+        if st.kind == "call" and u(st.target) == "selected_reads":
+            n_in += 1
+            a = st.call.args[0] if st.call.args else None
+            d = util.single_def(rs.node, u(a)) if isinstance(a, ast.Name) else a
+            if not (st.method in ("update", "__ior__") and isinstance(d, ast.Call) and u(d.func) == "readselection_helper"):
+                bad.append("selected_reads.%s(%s)" % (st.method, u(a) if a is not None else ""))
+    for s_, v in util.assignments_to(rs.node, "selected_reads"):
+        n_in += 1
+        if isinstance(v, tuple) and v[0] == "aug":
+            d = util.single_def(rs.node, u(v[2])) if isinstance(v[2], ast.Name) else v[2]
+            if not (isinstance(d, ast.Call) and u(d.func) == "readselection_helper"):
+                bad.append("selected_reads %s= %s" % (type(v[1]).__name__, u(v[2])))
+        elif isinstance(v, ast.AST):
+            if not (u(v) == "set()" or (isinstance(v, ast.Call) and u(v.func) == "readselection_helper")):
+                bad.append("selected_reads = %s" % u(v)[:60])
+        else:
+            bad.append("selected_reads bound by %s" % (v[0],))
+    ctx.ob(rs.qual, "selection-only-receives-helper-results", not bad and n_in >= 2, rs.loc(), "selected_reads starts empty and only receives results of readselection_helper, which registers every selected read with the coverage monitor" if not bad else "%s puts reads into the selection that never passed the coverage test / monitor" % bad[0])
     h = ctx.func(RS + ".readselection_helper")
     grow = [c for c in ctx.prog.calls_in(h.node) if u(c.func) in ("selected_reads.update", "selected_reads.add")]
     okg = len(grow) == 2
